@@ -307,8 +307,13 @@ where
                         leaf.exec(&mut leaf, device, context, tokens, response)?;
                     }
                 }
-                // Empty input
-                None => break Ok(()),
+                // Empty input or trailing unit separator
+                None => {
+                    if !response.is_empty() {
+                        response.message_end()?;
+                    }
+                    break Ok(());
+                }
                 //
                 Some(Err(err)) => break Err(Error::new(*err)),
                 // idk?
